@@ -103,7 +103,26 @@ type tEnum struct {
 	Full   string
 	Name   string
 	Prefix string   // e.g. "FOO_STATUS_"
-	Values []string // short names; index = number; [0] == "UNSPECIFIED"
+	Values []string // short names; [0] == "UNSPECIFIED"
+	// Numbers, when set, gives the number of each value (sparse / unordered numbering); otherwise number = index
+	Numbers []int32
+}
+
+func (e *tEnum) number(i int) int32 {
+	if e.Numbers != nil {
+		return e.Numbers[i]
+	}
+	return int32(i)
+}
+
+// nameOf returns the short name of the value with this number ("" when undefined)
+func (e *tEnum) nameOf(n int32) (string, bool) {
+	for i, v := range e.Values {
+		if e.number(i) == n {
+			return v, true
+		}
+	}
+	return "", false
 }
 
 type tFile struct {
@@ -196,7 +215,7 @@ func (f *tFile) render() string {
 func (e *tEnum) render(sb *strings.Builder, ind string) {
 	fmt.Fprintf(sb, "%senum %s {\n", ind, e.Name)
 	for i, v := range e.Values {
-		fmt.Fprintf(sb, "%s  %s%s = %d;\n", ind, e.Prefix, v, i)
+		fmt.Fprintf(sb, "%s  %s%s = %d;\n", ind, e.Prefix, v, e.number(i))
 	}
 	fmt.Fprintf(sb, "%s}\n\n", ind)
 }
@@ -353,7 +372,34 @@ func (g *protoGen) newEnum(name string, n int) *tEnum {
 		vals = append(vals, words[i%len(words)])
 	}
 	prefix := strings.ToUpper(camelToSnake(name)) + "_"
-	return &tEnum{Full: g.pkg + "." + name, Name: name, Prefix: prefix, Values: vals}
+	if g.rng != nil && g.rng.Intn(3) == 0 {
+		// an option whose short name itself begins with the enum's prefix
+		vals = append(vals, prefix+"AGAIN")
+	}
+	e := &tEnum{Full: g.pkg + "." + name, Name: name, Prefix: prefix, Values: vals}
+	if g.rng != nil && n >= 2 {
+		switch g.rng.Intn(4) {
+		case 0:
+			// sparse numbering: 0, 2, 3, 10, 11 ...
+			e.Numbers = []int32{0}
+			next := int32(2)
+			for i := 1; i < len(vals); i++ {
+				e.Numbers = append(e.Numbers, next)
+				if i%2 == 0 {
+					next += 7
+				} else {
+					next++
+				}
+			}
+		case 1:
+			// declared out of numeric order
+			e.Numbers = []int32{0}
+			for i := 1; i < len(vals); i++ {
+				e.Numbers = append(e.Numbers, int32(len(vals)-i))
+			}
+		}
+	}
+	return e
 }
 
 func camelToSnake(s string) string {
@@ -418,7 +464,18 @@ func sinkModel(pkg string) *tModel {
 		flat.Fields = append(flat.Fields, g.field("f_"+k, k, "", ""))
 	}
 	flat.Fields = append(flat.Fields, g.field("f_enum", kEnum, en.Full, ""), g.field("f_leaf", kObject, leaf.Full, ""), g.field("f_r_string", kString, "", "repeated"))
+	// a flattened object inside the flattened object
+	flatInner := &tMsg{Full: pkg + ".FlatInner", Name: "FlatInner", Fields: []*tField{g.field("fi_string", kString, "", ""), g.field("fi_int64", kInt64, "", ""), g.field("fi_leaf", kObject, leaf.Full, ""), g.field("fi_r_enum", kEnum, en.Full, "repeated")}}
+	flatInner.number(nil)
+	{
+		fi := g.field("f_inner", kObject, flatInner.Full, "")
+		fi.Flatten = true
+		flat.Fields = append(flat.Fields, fi)
+	}
 	flat.number(nil)
+	// an enum with gaps in its numbering, declared out of numeric order
+	sparse := &tEnum{Full: pkg + ".Sparse", Name: "Sparse", Prefix: "SPARSE_", Values: []string{"UNSPECIFIED", "LOW", "MID", "HIGH", "TOP"}, Numbers: []int32{0, 2, 3, 10, 7}}
+	f.Enums = append(f.Enums, sparse)
 
 	wrapScalar := &tMsg{Full: pkg + ".ScalarChoice", Name: "ScalarChoice", Wrapper: true, WrapperDecl: "legacy", Groups: []tGroup{{Name: "type"}}}
 	for _, k := range scalarKinds {
@@ -460,7 +517,7 @@ func sinkModel(pkg string) *tModel {
 	for _, k := range scalarKinds {
 		sink.Fields = append(sink.Fields, g.field("s_"+k, k, "", ""), g.field("o_"+k, k, "", "optional"), g.field("r_"+k, k, "", "repeated"), g.field("m_"+k, k, "", "map"))
 	}
-	for _, spec := range [][3]string{{"enum", kEnum, en.Full}, {"leaf", kObject, leaf.Full}, {"choice", kOneof, choice.Full}, {"scalar_choice", kOneof, wrapScalar.Full}, {"typed_choice", kOneof, typed.Full}} {
+	for _, spec := range [][3]string{{"enum", kEnum, en.Full}, {"sparse", kEnum, sparse.Full}, {"leaf", kObject, leaf.Full}, {"choice", kOneof, choice.Full}, {"scalar_choice", kOneof, wrapScalar.Full}, {"typed_choice", kOneof, typed.Full}} {
 		sink.Fields = append(sink.Fields, g.field("s_"+spec[0], spec[1], spec[2], ""), g.field("o_"+spec[0], spec[1], spec[2], "optional"), g.field("r_"+spec[0], spec[1], spec[2], "repeated"), g.field("m_"+spec[0], spec[1], spec[2], "map"))
 	}
 	fl := g.field("flat", kObject, flat.Full, "")
@@ -485,7 +542,7 @@ func sinkModel(pkg string) *tModel {
 	}
 	sink.number(nil)
 
-	f.Msgs = []*tMsg{leaf, flat, wrapScalar, choice, typed, sink}
+	f.Msgs = []*tMsg{leaf, flatInner, flat, wrapScalar, choice, typed, sink}
 	m := &tModel{Files: []*tFile{f}}
 	m.index()
 	return m
@@ -591,10 +648,23 @@ func randomModel(rng *rand.Rand, pkg string) *tModel {
 			if kind == kObject && card == "" && rng.Intn(4) == 0 && ref != m.Full && !flattened[ref] {
 				// flatten only acyclic: the flattened type must not (transitively) flatten back; keep it simple: only
 				// flatten types declared earlier that have no flattened fields themselves
+				// (chains of flattened objects are allowed: the target may itself flatten earlier types; what must
+				// not happen is one type reaching this message twice, which would duplicate its JSON names)
 				target := findMsg(f, ref)
-				if target != nil && !hasFlatten(target) && processed[ref] {
-					fl.Flatten = true
-					flattened[ref] = true
+				if target != nil && processed[ref] {
+					closure := flattenClosure(f, target)
+					clash := false
+					for t := range closure {
+						if flattened[t] {
+							clash = true
+						}
+					}
+					if !clash {
+						fl.Flatten = true
+						for t := range closure {
+							flattened[t] = true
+						}
+					}
 				}
 			}
 			m.Fields = append(m.Fields, fl)
@@ -634,6 +704,21 @@ func findMsg(f *tFile, full string) *tMsg {
 	}
 	walk(f.Msgs)
 	return found
+}
+
+// flattenClosure: the type and every type it (transitively) flattens
+func flattenClosure(f *tFile, m *tMsg) map[string]bool {
+	out := map[string]bool{m.Full: true}
+	for _, fl := range m.Fields {
+		if fl.Flatten {
+			if t := findMsg(f, fl.Ref); t != nil {
+				for k := range flattenClosure(f, t) {
+					out[k] = true
+				}
+			}
+		}
+	}
+	return out
 }
 
 func hasFlatten(m *tMsg) bool {
